@@ -14,7 +14,11 @@ THEOREMS = ['Otel.C04.' + t for t in (
     'spanKind_statusCode_counts')] + [
     'Otel.Attr.Map.lookup_foldl_setAttribute', 'Otel.Attr.Map.nodup_foldl_setAttribute', 'Otel.Attr.Map.lookup_ofIterable']
 H = 's_c04'
-HARNESSES = [Harness(H, ['harness/s_c04.cc'], sdk_srcs=sdk_sources('common', 'resource', 'version', 'trace'), includes=SDK_INCLUDES)]
+H2 = 's_c04_v2'   # the same harness source built with OPENTELEMETRY_ABI_VERSION_NO=2 (Span::AddLink / AddLinks exist): engine word `span2`
+_SRCS = sdk_sources('common', 'resource', 'version', 'trace')
+HARNESSES = [Harness(H, ['harness/s_c04.cc'], sdk_srcs=_SRCS, includes=SDK_INCLUDES),
+             Harness(H2, ['harness/s_c04.cc'], sdk_srcs=_SRCS, includes=SDK_INCLUDES,
+                     flags=['-UOPENTELEMETRY_ABI_VERSION_NO', '-DOPENTELEMETRY_ABI_VERSION_NO=2'])]
 RULE = ('one case = one span program: StartSpan(name, kind, system/steady start options incl. 0 = not given, 0-6 attributes with '
         'duplicate keys, 0-3 links with own attributes) on a provider with 1-8 processors of mixed kinds (simple / batch flushed '
         'later), then 0-40 operations (SetAttribute with every AttributeValue alternative, the four AddEvent overloads, SetStatus, '
@@ -22,14 +26,15 @@ RULE = ('one case = one span program: StartSpan(name, kind, system/steady start 
         'a tenth of the programs run every op on another thread, one at a time; a seventh contain a CONCURRENT section in which 2-4 '
         'real threads apply their mutators to the one span at the same time - keys / event names are per thread, so every '
         'interleaving must give the same record up to the relative order of events of different threads, which is printed '
-        'grouped), then ~Span and a final ForceFlush. Every caller buffer is an '
+        'grouped), then ~Span and a final ForceFlush; a further stream runs the same kind of programs plus AddLink / AddLinks against an '
+        'ABI-v2 build of the same sources. Every caller buffer is an '
         'exact-size heap block freed right after the call. non-trivial = the program has at least one operation and is accepted; '
         'distinct = distinct case line')
 TRUSTED = ['harness exporter/canonicaliser (renders SpanData at Export time; clock-dependent times printed as now/auto)',
            'the batch processor\'s own protocol (queue, worker thread) is C01-C03\'s; here only its hand-over and flush are observed',
            'memory safety / ownership is shown by ASan+UBSan on freed-after-call caller buffers, not by a theorem']
 ASSUMPTIONS = ['span identity (ids, flags, parent) is C05\'s and not compared here',
-               'ABI v1 build: Span::AddLink does not exist, links are given at StartSpan only',
+               'the repo is built with ABI v1 (links only at StartSpan); Span::AddLink / AddLinks are exercised in a second harness built from the same sources with OPENTELEMETRY_ABI_VERSION_NO=2',
                'generated numeric values stay inside the C++ types (out-of-range tokens are rejected by both sides as bad-op)']
 SHRINK = True
 
@@ -132,7 +137,11 @@ def r_time(rng, hi):
     return rng.randrange(1, hi)
 
 
-def gen_program(rng, big=False, threaded=False, nprocs=None, par=False):
+def r_link(rng, pool, big=False):
+    return f'{rng.getrandbits(128):032x}/{rng.getrandbits(64):016x}/{rng.randrange(256):02x}/{r_attrs(rng, pool, 3, big)}'
+
+
+def gen_program(rng, big=False, threaded=False, nprocs=None, par=False, v2=False):
     pool = [b'k', b'a', b'key.two', b'', b'k\x00x', b'\xff\xfe', b'a.b.c'][:rng.randrange(2, 8)]
     np = nprocs or rng.choice([1, 1, 2, 2, 3, 4, 4, rng.randrange(1, 9)])
     procs = ''.join(rng.choice('sb') for _ in range(np))
@@ -156,7 +165,14 @@ def gen_program(rng, big=False, threaded=False, nprocs=None, par=False):
         if i == nops:
             break
         r = rng.random()
-        if r < 0.38:
+        if v2 and r < 0.22:
+            # ABI v2: AddLink / AddLinks
+            if rng.random() < 0.6:
+                ops.append('link ' + r_link(rng, pool, big))
+            else:
+                n = rng.choice([0, 1, 2, 3])
+                ops.append('links ' + ('|'.join(r_link(rng, pool, big) for _ in range(n)) if n else '-'))
+        elif r < 0.38:
             ops.append(f'attr {hx(r_key(rng, pool))} {r_value(rng, big)}')
         elif r < 0.58:
             k = rng.choice(['ev', 'evt', 'eva', 'evta'])
@@ -198,6 +214,8 @@ def gen_program(rng, big=False, threaded=False, nprocs=None, par=False):
         rng.shuffle(sec)
         at = rng.randrange(len(ops) + 1)
         ops = ops[:at] + ['par'] + sec + (['seq'] if at < len(ops) or rng.random() < 0.7 else []) + ops[at:]
+    if v2:
+        cfg = 'span2' + cfg[4:]
     return ' ; '.join([cfg] + ops)
 
 
@@ -228,6 +246,13 @@ def corpus():
         C('span sbs - 6c/-/- 6e 0 5 7 - - ; ev 3100 ; par ; @0 attr 30 i:1 ; @1 attr 31 s:6162 ; @0 ev 3061 ; @1 evta 3161 5 6b=i:1 ; @0 attr 30 i:3 ; @1 ev 3162 ; '
           '@3 attr 33 S:61.62 ; seq ; ev 3000 ; end 9 ; par ; @0 attr 30 i:4 ; @2 ev 32', 'concurrent-section'),
     ]
+    L = lambda k: f'{k * 32}/{k * 16}/0{k}/'
+    out.append(Case('span2 sb - 6c/-/- 6e 0 5 7 - ' + L('1') + '- ; link ' + L('2') + '6b=i:1,6b=i:2 ; links ' + L('3') + '-|' + L('4') + '61=S:61.- ; links - ; '
+                    'end 9 ; link ' + L('5') + '- ; links ' + L('6') + '-', H2, ('corpus', 'abi2-addlink'), 'corpus'))
+    for bad in ('span2 s - 6c/-/- 6e 0 0 0 - - ; link -', 'span2 s - 6c/-/- 6e 0 0 0 - - ; link ' + L('1') + '-|' + L('2') + '-', 'span2 s - 6c/-/- 6e 0 0 0 - - ; links',
+                'span2 s - 6c/-/- 6e 0 0 0 - - ; par ; @1 link ' + L('1') + '-', 'span2 s - 6c/-/- 6e 0 0 0 - - ; link 00/00/00/-'):
+        out.append(Case(bad, H2, ('corpus', 'malformed'), 'corpus'))
+    out.append(C('span s - 6c/-/- 6e 0 0 0 - - ; link ' + L('1') + '-', 'malformed'))      # no AddLink under ABI v1
     for bad in ('span', 'span x', 'span sx 00 -/-/- 6e 0 0 0 - -', 'span s 00 -/-/- 6e 5 0 0 - -', 'span s 00 -/- 6e 0 0 0 - -',
                 'span s 0 -/-/- 6e 0 0 0 - -', 'span s 00 -/-/- 6e 0 0 0 6b=i:2147483648 -', 'span s 00 -/-/- 6e 0 0 0 - - ; attr 6b u:-1',
                 'span s 00 -/-/- 6e 0 0 0 - - ; status 3 -', 'span s 00 -/-/- 6e 0 0 0 - - ; bogus', 'span s 00 -/-/- 6e 0 0 0 - - ; ',
@@ -256,6 +281,10 @@ def generate(rng, tier):
         ends = [j for j, o in enumerate(ops) if o.split(' ')[-2:-1] == ['end'] or o.startswith('end ')]
         tags.append('no-explicit-end' if not ends else ('ops-after-end' if ends[0] < len(ops) - 1 else 'end-last'))
         out.append(Case(line, H, tags))
+    # ABI v2 build: the same programs plus AddLink / AddLinks
+    for i in range(20000 if big else 1500):
+        par = rng.random() < 0.1
+        out.append(Case(gen_program(rng, big, rng.random() < 0.1, par=par, v2=True), H2, ('program', 'abi2-addlink') + (('concurrent-section',) if par else ())))
     # every alternative as the later write over every alternative as the earlier write (16 x 16), on simple+batch
     for a in ALTS:
         for b in ALTS:
@@ -367,8 +396,9 @@ def spec_time(v):
 def spec_expected(line):
     """(is-recording observations, processor kinds, the record every exporter must receive) - or raises Bad"""
     toks = line.split()
-    if not toks or toks[0] != 'span':
+    if not toks or toks[0] not in ('span', 'span2'):
         raise Bad('engine')
+    v2 = toks[0] == 'span2'
     segs, cur = [], []
     for t in toks[1:]:
         if t == ';':
@@ -392,17 +422,20 @@ def spec_expected(line):
     sys_t = _int(c[5], *I64)
     steady = _int(c[6], *I64)
     writes = spec_attrs(c[7])
-    links = []
-    if c[8] != '-':
-        for l in c[8].split('|'):
-            p = l.split('/')
-            if len(p) != 4:
-                raise Bad('link')
-            tid, sid, fl = _hex(p[0]), _hex(p[1]), _hex(p[2])
-            la = spec_attrs(p[3])
-            if len(tid) != 16 or len(sid) != 8 or len(fl) != 1:
-                raise Bad('link ids')
-            links.append(f'{tid.hex()}/{sid.hex()}/{fl.hex()}{show_map(la)}')
+    def p_links(tok):
+        res_ = []
+        if tok != '-':
+            for l in tok.split('|'):
+                p = l.split('/')
+                if len(p) != 4:
+                    raise Bad('link')
+                tid, sid, fl = _hex(p[0]), _hex(p[1]), _hex(p[2])
+                la = spec_attrs(p[3])
+                if len(tid) != 16 or len(sid) != 8 or len(fl) != 1:
+                    raise Bad('link ids')
+                res_.append(f'{tid.hex()}/{sid.hex()}/{fl.hex()}{show_map(la)}')
+        return res_
+    links = p_links(c[8])
     events, status, ended, end_opt, rec = [], (0, b''), False, None, []
     parsed = []
     in_par, grouped = False, False
@@ -432,6 +465,12 @@ def spec_expected(line):
         elif k == 'name' and len(o) == 2: parsed.append(('name', _hex(o[1])))
         elif k == 'end' and len(o) == 2: parsed.append(('end', _int(o[1], *I64)))
         elif k in ('flush', 'isrec') and len(o) == 1: parsed.append((k,))
+        elif v2 and k == 'link' and len(o) == 2:
+            ls = p_links(o[1])
+            if len(ls) != 1:
+                raise Bad('link')
+            parsed.append(('links', ls))
+        elif v2 and k == 'links' and len(o) == 2: parsed.append(('links', p_links(o[1])))
         else:
             raise Bad('op')
     for o in parsed:
@@ -443,6 +482,7 @@ def spec_expected(line):
         elif ended or o[0] == 'flush':
             continue                     # after End nothing changes
         elif o[0] == 'attr': writes.append((o[1], o[2]))
+        elif o[0] == 'links': links.extend(o[1])
         elif o[0] == 'ev': events.append((o[1][0] + 1 if o[1] else 0, f'{hx(o[1])}@{spec_time(o[2])}{show_map(o[3])}'))
         elif o[0] == 'status': status = (o[1], o[2])
         elif o[0] == 'name': name = o[1]
